@@ -32,7 +32,10 @@
 (* a Send is between send.try and its result.  A failed dial is accepted only     *)
 (* after the server has closed a connection attempt during its handshake; Hang    *)
 (* (a call outlives its deadline) and srv.corrupt (the client's byte stream is    *)
-(* not a sequence of valid frames) have no action.                                *)
+(* not a sequence of valid frames) have no action, nor has conn.up.again (the     *)
+(* authentication of an installed socket "completes" once more).  On             *)
+(* authenticated connections SetupDone is bound to the hook in                   *)
+(* handleAuthResponse; the nonce packets themselves are not modelled.            *)
 (* Quiesce closes the segment: every call returned, queries = {}, no delivery in *)
 (* progress, every connection Connected on an open socket, old generations gone, *)
 (* and the goroutine census of the process equals the model's.                   *)
@@ -158,7 +161,9 @@ OnLink == E.c \in Conns /\ E.g \in Gens(E.c)
 Fin    == L(E.c, E.g).fin
 MarkAns(c) == IF c \in Calls /\ ansAt[c] = <<>> THEN ansAt' = [ansAt EXCEPT ![c] = <<T, E.c, E.g>>] ELSE UNCHANGED ansAt
 TServer == LET k == E.c  g == E.g IN
-  CASE K = "srv.hsdrop" -> /\ NoOp /\ refused' = refused + 1
+  \* tcp.authentificationNonce (authenticated connections): consumed inside Connection.reader, first or repeated - no effect on the model
+  CASE K = "srv.authnonce" -> NoOp /\ Same(aux)
+    [] K = "srv.hsdrop" -> /\ NoOp /\ refused' = refused + 1
                            /\ UNCHANGED <<ncalls, tmo, t0, dlvAt, ansAt, trying, early, clun, indlv, recBy, crun, sending>>
     [] K = "srv.up"   -> k \in Conns /\ g = gen[k] + 1 /\ DialOk(k) /\ Same(aux)
     [] K = "srv.recv" -> /\ OnLink /\ Same(aux)
@@ -181,7 +186,7 @@ TServer == LET k == E.c  g == E.g IN
                                    /\ recBy' = [recBy EXCEPT ![k] = Min2(@, T + RecoverMs)]
                               ELSE NoOp /\ UNCHANGED recBy
                          /\ UNCHANGED <<ncalls, tmo, t0, dlvAt, ansAt, trying, early, clun, indlv, crun, sending, refused>>
-ServerKinds == {"srv.hsdrop", "srv.up", "srv.recv", "srv.ans", "srv.dup", "srv.unk", "srv.other", "srv.pong", "srv.drop"}
+ServerKinds == {"srv.authnonce", "srv.hsdrop", "srv.up", "srv.recv", "srv.ans", "srv.dup", "srv.unk", "srv.other", "srv.pong", "srv.drop"}
 
 \* -------------------------------------------------- generation g of connection c
 PktMatches(p) == IF E.ty = "ans" THEN p.t = "ans" /\ p.id = E.i /\ p.v = E.h
